@@ -2141,8 +2141,9 @@ pub enum PropertyStorage {
         len: u8,
         entries: [(PropertyKey, Property); INLINE_PROPERTY_CAPACITY],
     },
-    /// HashMap storage for larger objects.
-    Map(FxHashMap<PropertyKey, Property>),
+    /// Insertion-ordered map storage for larger objects (property enumeration
+    /// order is observable: Object.keys, for-in, JSON.stringify, spread).
+    Map(IndexMap<PropertyKey, Property>),
 }
 
 impl Default for PropertyStorage {
@@ -2170,10 +2171,7 @@ impl PropertyStorage {
         if capacity <= INLINE_PROPERTY_CAPACITY {
             Self::new()
         } else {
-            PropertyStorage::Map(FxHashMap::with_capacity_and_hasher(
-                capacity,
-                Default::default(),
-            ))
+            PropertyStorage::Map(index_map_with_capacity(capacity))
         }
     }
 
@@ -2240,10 +2238,7 @@ impl PropertyStorage {
                 }
 
                 // Need to convert to Map (current_len == INLINE_PROPERTY_CAPACITY)
-                let mut map = FxHashMap::with_capacity_and_hasher(
-                    INLINE_PROPERTY_CAPACITY + 1,
-                    Default::default(),
-                );
+                let mut map = index_map_with_capacity(INLINE_PROPERTY_CAPACITY + 1);
                 for entry in entries.iter_mut() {
                     let (k, v) = mem::replace(
                         entry,
@@ -2302,8 +2297,9 @@ impl PropertyStorage {
                     } else {
                         return None;
                     };
-                    if i < current_len - 1 {
-                        entries.swap(i, current_len - 1);
+                    // Shift the following entries down to keep insertion order
+                    for j in i..current_len - 1 {
+                        entries.swap(j, j + 1);
                     }
                     *len -= 1;
                     Some(removed.1)
@@ -2311,7 +2307,7 @@ impl PropertyStorage {
                     None
                 }
             }
-            PropertyStorage::Map(map) => map.remove(key),
+            PropertyStorage::Map(map) => map.shift_remove(key),
         }
     }
 
@@ -2388,10 +2384,7 @@ pub enum PropertyStorageIter<'a> {
         index: usize,
         len: usize,
     },
-    #[cfg(feature = "std")]
-    Map(std::collections::hash_map::Iter<'a, PropertyKey, Property>),
-    #[cfg(not(feature = "std"))]
-    Map(hashbrown::hash_map::Iter<'a, PropertyKey, Property>),
+    Map(indexmap::map::Iter<'a, PropertyKey, Property>),
 }
 
 impl<'a> Iterator for PropertyStorageIter<'a> {
@@ -2422,10 +2415,7 @@ pub enum PropertyStorageIterMut<'a> {
     Inline {
         entries: &'a mut [(PropertyKey, Property)],
     },
-    #[cfg(feature = "std")]
-    Map(std::collections::hash_map::IterMut<'a, PropertyKey, Property>),
-    #[cfg(not(feature = "std"))]
-    Map(hashbrown::hash_map::IterMut<'a, PropertyKey, Property>),
+    Map(indexmap::map::IterMut<'a, PropertyKey, Property>),
 }
 
 impl<'a> Iterator for PropertyStorageIterMut<'a> {
